@@ -40,6 +40,9 @@ CLAIMS = {
     'C10': dict(
         text="Decides, for every path and configuration, that the quantile handed to a model by the three decoders is below 2^PRECISION (reduced modulo 2^PRECISION, under a dominating strict guard whose failing arm returns InvalidData, or on the PRECISION == BITS edge), that the lookup models and the quantizer check that bound before their first use of the quantile, and that only the documented front-end errors are constructed (ANS none, range InvalidData, chain OutOfCompressedData). Not decided: absence of arithmetic panics, termination of the quantizer search, that the returned symbol belongs to the support (value-level; e.g. a wrong skip loop inside a model is not detected).",
         tech="bounded-value abstract domain over the value graph with dominating-guard recognition; error-constructor inventory"),
+    'C02': dict(
+        text="Decides sibling-agreement conditions necessary for the range-coder round trip, for all inputs/configurations: clear() resets every field to what the parameter-free constructor stores; the 'no symbol yet' sentinel compared by seal / num_seal_words / is_empty / maybe_exhausted is the constant the constructors store; the two clones of the held-back-word flush (encode_symbol, seal) emit the same (first word, fill word) pairs with the same trip count; seal() writes exactly num_seal_words() words; the decoder's range/lower updates and renormalisation predicate are structurally identical to the encoder's after mapping model results to role atoms. Not decided: carry-resolution and sealing arithmetic, FIFO value identity, maybe_exhausted after the last symbol (a symmetric change of encoder and decoder, or a changed threshold on both sides, is not detected).",
+        tech="reset-completeness and sentinel agreement over constructor literals; structural (DAG) sibling comparison of duplicated code and of encoder vs decoder updates; loop-summarised effect counting"),
 }
 
 NA = {
